@@ -140,7 +140,7 @@ func main() {
 	r.FloorCount("restores_unlimited_log", int64(r.Pick(2, 12)))
 	r.FloorCount("backup_roundtrips", int64(r.Pick(1, 4)))
 	r.FloorCount("corrupted_backups_refused", int64(r.Pick(2, 8)))
-	r.FloorCount("captures_concurrent_with_writes", int64(r.Pick(5, 40)))
+	r.FloorCount("captures_concurrent_with_writes", int64(r.Pick(3, 30)))
 	r.Finish()
 }
 
